@@ -54,6 +54,10 @@ pub fn remap_offsets(r: &J, map: &dyn Fn(u64) -> u64) -> J {
 			let (a, b) = (m(&err["span"][0]), m(&err["span"][1]));
 			err["span"] = json!([a, b]);
 		}
+		if err.get("region").is_some() {
+			let (a, b) = (m(&err["region"][0]), m(&err["region"][1]));
+			err["region"] = json!([a, b]);
+		}
 	}
 	out
 }
@@ -334,19 +338,20 @@ pub fn replay_parse(rep: &mut Report, rec: &J) {
 			}
 			table.push((a, b));
 			let map = |p: u64| table.binary_search_by_key(&p, |x| x.0).map(|i| table[i].1).unwrap_or(u64::MAX);
-			let expected = remap_offsets(&first, &map);
+			// the specification's outcome, translated
+			let expected = remap_offsets(exp, &map);
 			let got = project_result(guarded(|| Value::parse_with(s.chars().map(|c| Ok::<_, Infallible>(DecodedChar::new(c, len_of(c)))), o)));
 			rep.count("parse_calls");
-			if got != expected {
-				let aspect = if got["ok"] == json!(true) && expected["ok"] == json!(true) && got["v"] == expected["v"] {
-					"C05.transport"
-				} else if got["ok"] == json!(false) && expected["ok"] == json!(false) {
-					"C07.transport"
-				} else {
-					"C01.entrypoints"
-				};
-				rep.mismatch(aspect, json!({"what": "with character lengths reported in another unit the outcome is not the same outcome with translated offsets", "transport": tname,
-					"input": ctx, "observed": got, "expected": expected}));
+			let mut ctx2 = ctx.clone();
+			ctx2["transport"] = json!(tname);
+			compare_outcome(rep, &ctx2, "parse_with (other character lengths)", &expected, &got, strict);
+			// every reported offset is a character boundary of the input, in the coordinates of the input
+			let boundary = |p: &J| p.as_u64().map(|p| table.iter().any(|x| x.1 == p)).unwrap_or(true);
+			if let Some(err) = got.get("err") {
+				if !boundary(&err["pos"]) || !boundary(&err["span"][0]) || !boundary(&err["span"][1]) {
+					rep.mismatch("C07.error", json!({"what": "a reported offset is not a character boundary of the input (character lengths reported in another unit)", "transport": tname,
+						"input": ctx2, "observed": got}));
+				}
 			}
 		}
 	}
